@@ -7,6 +7,9 @@ CHECKS = {
    tech="z3 BMC of the live transition tables against the documented automaton with recurrence-diameter unwinding assertion; real PandoraMachine executed on solver-enumerated words with EUF-stub steps, assertions on z3 terms",
    text="Table level: language equivalence of the live _transitions_check table with the documented automaton is decided by z3 over a symbolic word of length |Q|^2+1 and the unwinding assertion shows that bound is complete; check/run tables mirror each other. Execution level (bounded): every accepted word up to length 5 (quick) / 7 (thorough), each step kind at most twice, with suffix variants, filling and several (num_scales, scale_factor), plus the shortest illegal extensions, is pushed through the real check_conf / check_pipeline_section / pandora.run with stub steps: acceptance, MachineError on rejection, state/event reset, order and multiplicity of step effects per scale and side, identity of a second check/run, and histories where another pipeline was checked before on the same machine.",
    note="Step classes are EUF stubs (their parameter validity is C05); words longer than the executed bound are covered by the table-level result only; plugins out of scope. Trusted: z3, the transitions library (executed for real), my encoding of trigger semantics (validated against the library on all 11111 words of length <= 4, 111111 in thorough)."),
+ 'C05': dict(cat='other', ref='DESIGN.md §5 C05', tech="dynamic symbolic execution of the real check_conf code with typed symbolic Python scalars (z3 Int / Float64) + z3; all paths explored, counterexamples replayed on the unmodified code",
+   text="The real check_conf of all 19 built-in step classes and the real check_pipeline_section / PandoraMachine.check_conf are executed with symbolic parameter values (unbounded ints, any float64 incl. NaN/inf) that behave like real ints/floats towards isinstance; json_checker runs for real. Every path is explored and z3 decides: accepted <=> value inside the documented domain (my transcription of the step_by_step docs), supplied values and key positions kept, omitted parameters get the documented defaults, user dictionary not mutated, checking the result again is the identity; each parameter alone, as the wrong numeric type, in pairs, and combined in three pipeline shapes; a finite list of structural variants (wrong Python types, unknown methods, 'NaN'/'inf' strings, band present/absent in left/right image, step != 1) runs concretely.",
+   note="json_checker's message formatting is stubbed and its exact-type filter maps the proxies to int/float; bool-for-int is not examined; plugins and steps without built-in method out of scope; pipeline harnesses bound ints to 2^31 and take sigma_space as a multiple of 1/8."),
  'C06': dict(cat='other', ref='DESIGN.md §5 C06',
    text="The real loop_refinement with the real Vfit / Quadratic refinement_method (numba kernels executed from their Python source, numba typing rules modelled) run symbolically on one pixel: D in 3..5 costs (any real |c| <= 4096 or NaN), any validity mask < 4096, winner index enumerated, incoming disparity on a sample or between samples (after a filter); every branch forks and each path is closed by z3 queries: shift <= 0.5/subpix, result equals the documented fit, coefficient never worse than the sample cost, stays inside the interval, bit 3 raised exactly for its causes and no other bit touched (covers repeated refinement via the arbitrary pre-mask), invalid pixels untouched, and totality (no exception, no division by zero, indices in bounds). Thorough adds a bit-precise float32/float64 harness for the stored shift bound.",
    note="Quick tier decides the algebra over exact reals (reals-for-floats assumption: float rounding of the fit is outside it); the FP harness (thorough) bounds cost magnitudes to [2^-20, 2^20] or 0. One pixel at a time: pixel independence of the prange loop is C18's write-set obligation. The sample a valid pixel sits on is assumed to have a computable cost."),
@@ -24,6 +27,9 @@ CHECKS = {
    tech="real pandora.run / read_multiscale_params / run_prepare / run_multiscale executed with EUF stubs, interval arithmetic symbolic (z3 Real); schedule and interval identities decided by z3",
    text="Schedule: for every legal pipeline word containing multiscale (bounded length) and (num_scales, scale_factor) in {2,3,4}x{2,3}: matching executes once per scale from the coarsest level to the original images, steps after multiscale run once at full resolution, coarsest interval == user/sf^(n-1) and each finer interval == sf * disparity_range(coarser map, user interval of that level) as z3 validity queries over symbolic interval ends, for left and right.",
    note="Pyramid construction (skimage) is a stub that records levels; disparity_range itself is an uninterpreted function at this level (its numerics are a separate harness when listed in evidence)."),
+ 'C20': dict(cat='other', ref='DESIGN.md §5 C20', tech="dynamic symbolic execution of the real margins code and PandoraMachine.check_conf with typed symbolic scalars + z3 (LIA)",
+   text="Real Margins / GlobalMargins / max_margins / descriptors and the margins properties of median, median_for_intervals, bilateral and matching-cost classes executed with symbolic window size, filter size, step, image shape and sigma_space; the real PandoraMachine.check_conf registration executed on three pipeline shapes with symbolic parameters, with and without validation. z3 decides on every path: listed steps and per-step values equal the documented formula, global margins == per-side max(sum of cumulative, each non-cumulative), non-negative, never lowered by adding a step, identical after the right/left second round and after a second check.",
+   note="ints bounded (2^20 / 2^31), sigma_space a multiple of 1/8 (exact arithmetic for int(3 sigma + 1)); 'what main stores' is covered by C19's harness only if listed there; optimization margin checked on the class attribute (no built-in method to instantiate)."),
  'C03': dict(cat='other', ref='DESIGN.md §5 C03',
    text="Real WinnerTakesAll.to_disp/argmin_split/argmax_split executed symbolically on float32 cost volumes (bit-precise z3 FP), all values symbolic within the shape bounds (2x2x3 .. 3x4x4, block-straddling 99..201 sizes with a symbolic stripe across the 100-pixel boundary); z3 unsat = property holds for every cost/NaN/tie pattern inside the bound; nothing is claimed outside the listed shapes.",
    note="Assumes costs finite or NaN (documented precondition); trusted: z3 5.1, the symnp numpy model (argmin/argmax/where/mask stores), numpy for shape-only operations, xarray container behaviour (executed for real)."),
